@@ -51,7 +51,8 @@ def judge(ctx, log, label):
         if sum(1 for e in r["ev"] if e["op"] == "cc" and e["out"]) >= 2:
             ctx.nontrivial.add((label, i))
         if r.get("sig") or r.get("asan"):
-            ctx.reject(dict(clause="crash_or_memory_error", source=label), dict(steps=[]), "crash/ASan report in a %s MIDI-learn history: %s" % (label, r.get("asan_what")))
+            ctx.reject(dict(clause="crash_or_memory_error", source=label, stray_bind_before=stray_before(r["ev"], len(r["ev"]))), dict(steps=steps_of(r["ev"])),
+                       "crash/ASan report in a %s MIDI-learn history of %d calls: %s" % (label, len(r["ev"]), r.get("asan_what")))
         if i in rej:
             cl, l = rej[i]
             real = [c for c in cl if c not in STRUCT]
